@@ -725,6 +725,7 @@ def run(chk, F):
         c10_metadata.run_metadata(chk, F, rid="C10.R3")
     rule_r4(chk, F)
     rule_r5(chk, F)
+    rule_r8(chk, F)
     rule_r6(chk, F)
     chk.assumptions += [
         "decides the pairing call → stack map (and the record layouts); that a map names exactly the live "
@@ -732,3 +733,170 @@ def run(chk, F):
         "masm/arm64.rs (cfg(aarch64)) is not analysed on this host",
     ]
     from rules import a64; a64.run_c10(chk, F)  # noqa: E702  arm64 siblings (aarch64 fact set)
+
+
+def rule_r8(chk, F, rid="C10.R8"):
+    """Generalises R5 from the bailout stubs to the whole finalisation of a code object.  A call to a runtime function
+    whose native target never returns (trap, stack overflow — derived as in R1) leaves a return address that is only
+    ever used to *look up* the frame (stack trace, stack map).  If such a call is the last instruction of the code
+    object the address equals the start of the next one.  May-analysis over MIR: per function the set of possible 'last
+    code-affecting emission' kinds {trap-call, other, nothing}, composed through calls (a callee that may emit nothing
+    keeps the caller's state), to a fixpoint; the function that hands out the finished code must not be able to end
+    with a trap call."""
+    r = chk.rule(rid, "no code object can end with a call that never returns: on every path through the baseline "
+                      "compiler's finalisation (slow paths, bailout stubs) the last emitted instruction is not a "
+                      "trap/stack-overflow call (its return address would be the first byte of the next function)")
+    cg = CallGraph(F, libs=["dora_cannon_compiler", "dora_asm", "dora_runtime", "dora_compiler"], bins=[])
+    targets, _sym, _tramp = runtime_function_targets(F)
+    div = diverging(cg, [])
+    div_variants = {v for v, native in targets.items() if native is not None and native in div}
+    if not r.anchor("runtime functions whose native target never returns", div_variants):
+        return
+    # assembler methods that append bytes: those that reach the buffer's emit primitives (position()/label
+    # bookkeeping does not count)
+    prims = {p for p in cg.bodies if p.startswith("dora_asm::") and last(p) in
+             ("emit_u8", "emit_u16", "emit_u32", "emit_u64", "emit_byte", "emit_int32")}
+    if not r.anchor("assembler buffer primitives (emit_u8/emit_u32/…)", prims):
+        return
+    asm_insn = set()
+    for p in cg.bodies:
+        if p.startswith("dora_asm::x64::AssemblerX64::") and last(p) not in ("resolve_jumps", "bind_label",
+                                                                               "finalize", "code"):
+            if p in prims or (cg.reachable_from([p]) & prims):
+                asm_insn.add(p)
+    # functions of the compiler that (transitively) emit machine code
+    emits_code = set()
+    for p in cg.bodies:
+        if p.startswith(CC):
+            if cg.reachable_from([p], stop=lambda x: x.startswith("dora_asm::")) & asm_insn:
+                emits_code.add(p)
+    RCRF = [p for p in cg.bodies if p.endswith("MacroAssembler>::raw_call_runtime_function") or
+            p.endswith("::raw_call_runtime_function")]
+    if not r.anchor("MacroAssembler::raw_call_runtime_function", RCRF):
+        return
+    summary = {}            # path -> frozenset of {"trap","other","nothing"}
+    bodies = {}
+
+    def body(p):
+        if p not in bodies:
+            bodies[p] = cg.body(p)
+        return bodies[p]
+
+    def call_effect(B, x, defs):
+        """→ set of kinds the call may leave as last emission ('nothing' = keeps the state)"""
+        nm = x.name
+        if nm in RCRF:
+            variant = None
+            for a in x.args:
+                o = cfg.origin(B, a, defs)
+                if o[0] == "agg" and o[1][0] == "adt" and o[1][1].endswith("RuntimeFunction"):
+                    variant = o[1][2]
+            if variant is None:
+                return {"trap", "other"}                      # unknown runtime function: may be a diverging one
+            return {"trap"} if variant in div_variants else {"other"}
+        if nm is None:
+            # unresolved (closure parameter, dyn): targets through the call graph
+            tg = [t for (t, _k) in cg.targets(x.fn)] if x.fn else []
+            out = set()
+            for t in tg:
+                if t in emits_code:
+                    out |= summary.get(t, {"other", "nothing"})
+            return out or {"nothing"}
+        if nm.startswith("dora_asm::"):
+            return {"other"} if nm in asm_insn else {"nothing"}
+        if nm in emits_code:
+            return set(summary.get(nm, {"nothing"}))
+        return {"nothing"}
+
+    def analyse(p):
+        B = body(p)
+        defs = cfg.simple_defs(B)
+        from rules.c04 import base_local
+        # emptiness guards of a collection iterated in this function: once a trap was emitted *in the loop*, the
+        # collection is not empty, so the guard's empty edge is infeasible for the trap state
+        loop_src = set()
+        for x in B.calls:
+            if x.name and (x.name.endswith("::iter") or x.name.endswith("into_iter")) and x.args:
+                loop_src.add(base_local(B, x.args[0], defs))
+        drop_trap = set()
+        for sb in range(B.n):
+            tt = B.blocks[sb]["t"]
+            if tt[0] != "switch" or tt[1][0] not in ("c", "m"):
+                continue
+            o = cfg.origin(B, tt[1], defs)
+            lencall, empty_edge = None, None
+            if o[0] == "bin" and o[1] in ("Gt", "Ne"):
+                a, b = o[2], o[3]
+                if b[0] == "k" and b[1].get("v") == 0 and a[0] in ("c", "m"):
+                    oa = cfg.origin(B, a, defs)
+                    if oa[0] == "call" and last(cfg.callee_name(cfg.callee_of(oa[1]["f"])) or "") == "len":
+                        lencall = oa[1]
+                        empty_edge = dict((v, bb) for v, bb in tt[2]).get(0)
+            elif o[0] == "call" and last(cfg.callee_name(cfg.callee_of(o[1]["f"])) or "") == "is_empty":
+                lencall, empty_edge = o[1], tt[3]
+            if lencall is not None and empty_edge is not None and lencall["a"] and \
+                    base_local(B, lencall["a"][0], defs) in loop_src:
+                drop_trap.add((sb, empty_edge))
+        calls_at = {x.block: x for x in B.calls}
+        state = {0: {"nothing"}}
+        work = [0]
+        while work:
+            b = work.pop()
+            st = set(state[b])
+            x = calls_at.get(b)
+            if x is not None:
+                eff = call_effect(B, x, defs)
+                new = set()
+                for e in eff:
+                    if e == "nothing":
+                        new |= st
+                    else:
+                        new.add(e)
+                st = new
+            for s in B.succ[b]:
+                if B.blocks[s]["c"]:
+                    continue
+                out = st - {"trap"} if (b, s) in drop_trap else st
+                if not out <= state.get(s, set()):
+                    state[s] = state.get(s, set()) | out
+                    work.append(s)
+            state.setdefault(("out", b), set()).update(st)
+        res = set()
+        for e in B.exits():
+            res |= state.get(("out", e), set())
+        return frozenset(res or {"nothing"})
+
+    order = sorted(emits_code)
+    for _round in range(8):
+        changed = False
+        for p in order:
+            if p.startswith(CC + "masm::") and "MacroAssembler" in p and p in RCRF:
+                continue
+            try:
+                s = analyse(p)
+            except Exception:                                   # noqa: BLE001
+                s = frozenset({"trap", "other", "nothing"})
+            if summary.get(p) != s:
+                summary[p] = s
+                changed = True
+        if not changed:
+            break
+    enders = sorted(p for p, s in summary.items() if "trap" in s)
+    r.observe("functions that may end with a never-returning call: %s" % [last(p) for p in enders][:12])
+    r.floor("functions whose last emission can be a never-returning call (slow-path and trap emitters)", len(enders), 3)
+    # the finishers: functions that construct the finished code object (return a CodeDescriptor) after emitting
+    fin = [p for p in emits_code if p.startswith(CC + "asm::BaselineAssembler") and last(p) in ("code",)]
+    fin += [p for p in emits_code if p.startswith(CC + "masm::MacroAssembler") and last(p) == "code"]
+    if not r.anchor("code-object finishers (BaselineAssembler::code / MacroAssembler::code)", fin):
+        return
+    for p in sorted(set(fin)):
+        s = summary.get(p, frozenset())
+        r.instance("%s:last-emission" % p, sample={"finisher": last(p), "may_end_with": sorted(s)})
+        if "trap" in s:
+            B = body(p)
+            r.violation("%s:can-end-with-a-never-returning-call" % p,
+                        "on some path the last instruction %s emits is a call to a runtime function that never returns "
+                        "(trap / stack overflow): when no padding follows, its return address is the first byte of the "
+                        "next code object — the frame of a failing assert (or another trap) is attributed to the "
+                        "neighbouring function in the stack trace, and a stack-map lookup would hit the wrong "
+                        "function" % last(p), B.file)
